@@ -37,6 +37,9 @@ def listNormIndex (cfg : Cfg) (key : Int) (len : Int) (ins : Bool) : Int :=
     (if ins then (if key + len < 0 then 0 else key + len) else if key ≥ -len then key + len else key)
   else key
 
+/-- the `consumed` mark is local to one dict write. -/
+def Forest.clearConsumed (f : Forest) : Forest := { f with consumed := false }
+
 def childNodes (its : Items) : List Tree := (its.map (·.2)).filter Tree.isNode
 
 def addRoots (f : Forest) (ts : List Tree) : Forest := ts.foldl Forest.addRoot f
@@ -125,14 +128,17 @@ def dictErase (f : Forest) (m : Meta) (its : Items) (key : Key) : Forest :=
 /-- formalize and store (dict.py:570-573). The old value has been detached before; it still
 occupies its slot until the new value is stored, and it becomes a root of its own unless the new
 value took it in. -/
-def dictStore (cfg : Cfg) (f : Forest) (m : Meta) (its : Items) (key : Key) (ve : VE) : Option Forest :=
+def dictStoreCore (cfg : Cfg) (f : Forest) (m : Meta) (its : Items) (key : Key) (ve : VE) : Option Forest :=
   let d := dictDetached its key
-  let r := evalVE cfg { f with consumed := false } (d.bind Tree.id?) (some m.id) (isObjKind m.kind) m.part
-    (m.path ++ [key]) ve
+  let r := evalVE cfg f (d.bind Tree.id?) (some m.id) (isObjKind m.kind) m.part (m.path ++ [key]) ve
   let nv := adoptPartial (isObjKind m.kind) m.part r.2
-  let f3 := { r.1 with consumed := false }.mapAt m.id (storeKey key key nv)
+  let f3 := (r.1.mapAt m.id (storeKey key key nv)).clearConsumed
+  -- (`none`: the written container itself went into the offered value — a cycle, no after-state)
   if (r.1.find? m.id).isNone then none else
   some (if r.1.consumed then f3 else addRoots f3 d.toList)
+
+def dictStore (cfg : Cfg) (f : Forest) (m : Meta) (its : Items) (key : Key) (ve : VE) : Option Forest :=
+  dictStoreCore cfg f.clearConsumed m its key ve
 
 /-- `Dict._set_item_without_permission_check` (dict.py:533-583), also the attribute container of
 an object (object.py:896-900). -/
